@@ -739,3 +739,7 @@ def run(ck, prog, ctx):
     ck.rule("MAPITER", "a hand-written mapping iterator returns None only on the inner iterator's exhaustion (no early end on a failed lookup)")
     from engines import check_mapping_iterators
     check_mapping_iterators(ck, "MAPITER", prog, r"^src/stats\.rs$", floor=2)
+    # the gene / OMIM / ORPHA variants of one operation: none does something its siblings do not
+    ck.rule("KSIB", "in a group of >= 3 kind variants of one operation, no member alone has an extra selecting / truncating / error-swallowing / text-changing step or calls a crate function no sibling calls")
+    from engines import check_kind_siblings
+    check_kind_siblings(ck, "KSIB", prog, r"^src/stats", floor=1)
